@@ -344,7 +344,7 @@ def run_engine_fixture(chk, rid="engine-fixture"):
                        key=f"idiom|{name}", file=b.file, line=b.lo, fn=b.path,
                        detail="a standard safe idiom is no longer proved: " + "; ".join(s["why"] for s in bad)[:200])
         chk.floor(rid, "traps", nb, 37)
-        chk.floor(rid, "safe idioms", ng, 23)
+        chk.floor(rid, "safe idioms", ng, 24)
         # the loop census on its own fixtures
         from ..loops import collect_loops
         lsites, _ = collect_loops(facts, [facts.crates[0]])
